@@ -70,6 +70,10 @@ chk("C19","exploration","round-trip runtime monitor over generated multipart lay
  "Held on the layouts explored (single/batched, placeholders at top-level/list/nested positions, files bound to one or several paths, one variable feeding fields of several services): every bound file arrived at the owning service under the same path with the same name and bytes, no stray parts, responses equal the reference, no data race.",
  "Trusted: harness multipart decoder at the services; marker substitution on both sides.","DESIGN.md §5 C19")
 
+chk("C17","exploration","offline sequence checker over recorded client frames and upstream emit logs (unique marker + event number per event), payload differential against the reference; strict frame parser; race detector as a verdict",
+ "Held on the scenarios explored (1-3 connections x 1-3 concurrent subscriptions, scripted upstreams with pauses / errors / complete / error frame): each subscription's data frames are exactly the emitted events in order with fully stitched payloads, nothing under a foreign id, upstream errors forwarded, all frames well formed.",
+ "Trusted: loopback websocket upstream that validates start payloads; quiescence by bounded wait (inconclusive on watchdog).","DESIGN.md §5 C17")
+
 claimed=set(C)
 na=[{"property_id":p['id'],"reason":"check under construction in this round; not claimed yet"} for p in props if p['id'] not in claimed]
 m={"version":1,"setup_cmd":"./run.sh build && ./run.sh selftest",
